@@ -154,6 +154,25 @@ func run(c *mc.Ctx) {
 var secondPass bool
 
 func workload(c *mc.Ctx) {
+	// ---- cold start: the accessors of the package-level objects, evaluated BEFORE anything else in this process has
+	// used the library (first pass; the second pass repeats them warm and the two passes must agree).  A table that is
+	// filled lazily by the first multiplication, but handed out by an accessor that forgets to fill it, shows only here.
+	space(c, "cold-start/package-level accessors", 4, func(i int) string {
+		switch i {
+		case 0:
+			return hx(eb(curve.ED25519_BASEPOINT_TABLE.Basepoint()))
+		case 1:
+			return hx(rb(curve.RISTRETTO_BASEPOINT_TABLE.Basepoint()))
+		case 2:
+			return hx(eb(curve.ED25519_BASEPOINT_POINT), curve.ED25519_BASEPOINT_COMPRESSED[:], rb(curve.RISTRETTO_BASEPOINT_POINT), curve.RISTRETTO_BASEPOINT_COMPRESSED[:], curve.X25519_BASEPOINT[:])
+		default:
+			o := ""
+			for _, t := range curve.EIGHT_TORSION {
+				o += hx(eb(t))
+			}
+			return o
+		}
+	})
 	S := alph.Scalars(c.Seed, true)
 	if c.Thorough {
 		S = alph.Scalars(c.Seed, false)[:300]
